@@ -111,8 +111,15 @@ def run_once(case, outdir, clock, tag, eps_override=None):
         # adversarial but legal allocation: the new world's memory index lands on the address of the index that the
         # previous (dropped) world used - CPython reuses freed addresses
         from clematis.memory.index import InMemoryIndex
-        cands = [InMemoryIndex() for _ in range(256)]
-        pick = next((c for c in cands if id(c) == LAST_INDEX_ID[0]), None)
+        # (walk the allocator's free lists for that size class until the freed block is handed out; other objects
+        # created since may have been given nearer blocks first)
+        cands, pick = [], None
+        for _ in range(200000):
+            c = InMemoryIndex()
+            if id(c) == LAST_INDEX_ID[0]:
+                pick = c
+                break
+            cands.append(c)
         if pick is not None:
             for e in eps:
                 pick.add(dict(e))
